@@ -86,7 +86,7 @@ func (n *c06xn) render() string {
 	case "str":
 		return "'" + n.s + "'"
 	case "col":
-		return n.s
+		return c06n(n.s)
 	case "paren":
 		return "(" + n.kids[0].render() + ")"
 	case "neg":
@@ -503,12 +503,25 @@ var c06siblings = []string{"a + b", "a - b", "a * b", "b - a"}
 
 var c06colOrder = []string{"a", "b", "s", "t", "f", "n"}
 
+// c06Names (cfg `names kw`): the columns a b s t f n are spelled order_id is_b origin island is_ok notes in the SQL text
+// and in the rows — identifiers that begin like the word operators OR / IS / NOT of the expression engines
+var c06Names map[string]string
+
+var c06KwNames = map[string]string{"a": "order_id", "b": "is_b", "s": "origin", "t": "island", "f": "is_ok", "n": "notes"}
+
+func c06n(col string) string {
+	if m, ok := c06Names[col]; ok {
+		return m
+	}
+	return col
+}
+
 func c06rowMap(op []string) map[string]interface{} {
 	m := map[string]interface{}{}
 	for i, c := range c06colOrder {
 		if 1+i < len(op) {
 			if v, present := c06cellValue(op[1+i]); present {
-				m[c] = v
+				m[c06n(c)] = v
 			}
 		}
 	}
@@ -744,6 +757,12 @@ func (c06) Gen(rng *rand.Rand, tier string, idx int) Case {
 			isBool = false
 		}
 		g.tag("depth-" + strconv.Itoa(depth))
+		if !tvl && !flip && rng.Intn(4) == 0 {
+			c06Names = c06KwNames
+			defer func() { c06Names = nil }()
+			c.Cfg = append(c.Cfg, []string{"names", "kw"})
+			g.tag("column-names-like-word-operators")
+		}
 		var toks []string
 		e.enc(&toks)
 		c.Cfg = append(c.Cfg, append([]string{"expr"}, toks...))
@@ -868,7 +887,7 @@ func c06compile(text string, isBool bool) *c06env {
 	env.selErr = env.sel.Execute(sql)
 	if isBool {
 		env.whr = streamsql.New(streamsql.WithDiscardLog())
-		if err := env.whr.Execute("SELECT b FROM stream WHERE " + text); err != nil {
+		if err := env.whr.Execute("SELECT " + c06n("b") + " FROM stream WHERE " + text); err != nil {
 			env.whrState = "rej"
 		} else {
 			env.whrState = "ok"
@@ -923,6 +942,9 @@ func (e *c06env) evalRow(op []string) (out [][]string) {
 			out = append(out, line)
 		}()
 		for _, sib := range c06siblings {
+			if c06Names != nil { // the siblings are written with the columns' spelling of this case
+				sib = strings.NewReplacer("a", c06n("a"), "b", c06n("b")).Replace(sib)
+			}
 			v, err := functions.GetExprBridge().EvaluateExpression(sib, c06rowMap(op))
 			if err != nil {
 				line = append(line, "e")
@@ -980,6 +1002,10 @@ func (c06) Exec(c Case) [][][]string {
 	isBool := false
 	if b := c06cfgOf(c, "bool"); len(b) > 0 {
 		isBool = b[0] == "t"
+	}
+	if nm := c06cfgOf(c, "names"); len(nm) > 0 && nm[0] == "kw" {
+		c06Names = c06KwNames
+		defer func() { c06Names = nil }()
 	}
 	for _, op := range c.Ops {
 		switch op[0] {
